@@ -11,6 +11,7 @@ from .lie_common import lib_call
 
 PI = np.pi
 SHARDS = {"quick": 8, "thorough": 16}
+REQUIRED_REACH = ['derive_model']
 RULE = ("random states (any attitude with both quaternion signs, body velocity/rates up to ~10, rotor speeds 0..2000, height > 0), "
         "rotor commands, and random physically meaningful parameter sets (mass, inertia, per-rotor arm length/angle/spin direction, "
         "thrust/moment/drag/damping coefficients, time constants, gravity) addressed by name through the model's own index maps; "
